@@ -464,6 +464,17 @@ func (c *s5ctx) escapes1(v ssa.Value) (bool, string) {
 			}
 			al, isVar := x.Addr.(*ssa.Alloc)
 			if !isVar {
+				// a field of a struct that lives in a local variable and is only handed (by value or by address) to
+				// functions that call the field: the function value does not outlive the activation
+				if fa, ok := x.Addr.(*ssa.FieldAddr); ok {
+					if sal, ok := fa.X.(*ssa.Alloc); ok {
+						if esc, why := c.structFieldEscapes(sal, fa.Field, 0); !esc {
+							continue
+						} else if why != "" {
+							return true, fmt.Sprintf("is stored into %s (%s), which %s", s45_clip(s45_renderVal(x.Addr, 0), 60), c.p.Pos(x.Pos()), why)
+						}
+					}
+				}
 				return true, fmt.Sprintf("is stored into %s (%s)", s45_clip(s45_renderVal(x.Addr, 0), 60), c.p.Pos(x.Pos()))
 			}
 			if esc, why := c.cellEscapes(al); esc {
@@ -509,6 +520,133 @@ func (c *s5ctx) escapes1(v ssa.Value) (bool, string) {
 			// comparison with nil
 		default:
 			return true, fmt.Sprintf("is used by %T at %s", ref, c.p.Pos(ref.Pos()))
+		}
+	}
+	return false, ""
+}
+
+// structFieldEscapes follows a struct object (held in the local cell `ptr`, or passed on as pointer / by value)
+// and reports whether the function value kept in its field `field` may outlive the activation.
+func (c *s5ctx) structFieldEscapes(ptr ssa.Value, field int, depth int) (bool, string) {
+	if depth > 6 || ptr.Referrers() == nil {
+		return true, "is passed through too many levels to follow"
+	}
+	for _, ref := range *ptr.Referrers() {
+		switch x := ref.(type) {
+		case *ssa.DebugRef:
+		case *ssa.FieldAddr:
+			if x.X != ptr {
+				continue
+			}
+			for _, r2 := range *x.Referrers() {
+				switch y := r2.(type) {
+				case *ssa.Store:
+					if y.Addr != x {
+						return true, "has the address of a field stored elsewhere"
+					}
+				case *ssa.UnOp:
+					if x.Field == field {
+						if esc, why := c.escapes(y); esc {
+							return true, why
+						}
+					}
+				case *ssa.DebugRef:
+				default:
+					if x.Field == field {
+						return true, fmt.Sprintf("has its field used by %T", r2)
+					}
+				}
+			}
+		case *ssa.Store:
+			if x.Val == ptr {
+				return true, "is itself stored into memory"
+			}
+			// initialisation of the whole struct (*ptr = value): fine
+		case *ssa.UnOp:
+			// the struct value is read: follow every use of the value
+			if esc, why := c.structValueEscapes(x, field, depth+1); esc {
+				return true, why
+			}
+		case ssa.CallInstruction:
+			cc := x.Common()
+			for j, arg := range cc.Args {
+				if arg != ptr {
+					continue
+				}
+				callees := c.e.callees[x]
+				if len(callees) == 0 || c.e.foreign[x] || s45_builtinName(cc) != "" {
+					return true, "is handed to a function outside the module"
+				}
+				for _, cf := range callees {
+					pi := j
+					if cc.IsInvoke() {
+						pi = j + 1
+					}
+					if pi >= len(cf.Params) {
+						return true, "is handed to " + core.FuncKey(cf)
+					}
+					if esc, why := c.structFieldEscapes(cf.Params[pi], field, depth+1); esc {
+						return true, why
+					}
+				}
+			}
+		default:
+			return true, fmt.Sprintf("is used by %T", ref)
+		}
+	}
+	return false, ""
+}
+
+// structValueEscapes: the struct VALUE v (a copy) holds the function in `field`.
+func (c *s5ctx) structValueEscapes(v ssa.Value, field int, depth int) (bool, string) {
+	if depth > 6 || v.Referrers() == nil {
+		return true, "is passed through too many levels to follow"
+	}
+	for _, ref := range *v.Referrers() {
+		switch x := ref.(type) {
+		case *ssa.DebugRef:
+		case *ssa.Field:
+			if x.X == v && x.Field == field {
+				if esc, why := c.escapes(x); esc {
+					return true, why
+				}
+			}
+		case *ssa.Store:
+			if x.Val != v {
+				continue
+			}
+			if al, ok := x.Addr.(*ssa.Alloc); ok {
+				if esc, why := c.structFieldEscapes(al, field, depth+1); esc {
+					return true, why
+				}
+				continue
+			}
+			return true, "is copied into memory that is not a local variable"
+		case ssa.CallInstruction:
+			cc := x.Common()
+			for j, arg := range cc.Args {
+				if arg != v {
+					continue
+				}
+				callees := c.e.callees[x]
+				if len(callees) == 0 || c.e.foreign[x] || s45_builtinName(cc) != "" {
+					return true, "is handed to a function outside the module"
+				}
+				for _, cf := range callees {
+					pi := j
+					if cc.IsInvoke() {
+						pi = j + 1
+					}
+					if pi >= len(cf.Params) {
+						return true, "is handed to " + core.FuncKey(cf)
+					}
+					if esc, why := c.structValueEscapes(cf.Params[pi], field, depth+1); esc {
+						return true, why
+					}
+				}
+			}
+		default:
+			return true, fmt.Sprintf("is used by %T", ref)
 		}
 	}
 	return false, ""
